@@ -24,7 +24,7 @@ SEM = {"BUF": "buf", "BUFF": "buf", "NOT": "not", "AND": "and", "NAND": "nand", 
 
 
 def ws(rng, p=0.4):
-    return rng.choice(["", " ", "  ", "\t"]) if rng.random() < p else ""
+    return rng.choice(["", " ", "  ", "\t", " ", "\t", "\f", "\v"]) if rng.random() < p else ""
 
 
 def wsd(rng):
@@ -119,20 +119,33 @@ def gen(rng, ctx):
             cd = G.cd_rename(cd, {v: rng.choice(["_" + v, v + "$", v + "_", v.upper()]) for v in rng.sample(names, min(len(names), rng.randint(1, 3)))})
         except ValueError:
             pass
-    if rng.random() < 0.12:
-        # the writer's helper for constants is named <input>_not: a design net of that name inverting ANOTHER net
+    if rng.random() < 0.16:
+        # the writer's helper for constants is named <input>_not: design nets of that name that are something else - a
+        # NOT of another net, or a NAND / NOR / AND ... that does or does not read that input (for several inputs, as
+        # the writer picks its input by hash order)
         tp = G.cd_types(cd)
         prd = G.cd_preds(cd)
         ins_ = [n for n, t, _ in cd["nodes"] if t == "input"]
-        nots = [n for n, t, _ in cd["nodes"] if t == "not"]
-        for g_ in nots:
-            others = [i_ for i_ in ins_ if i_ not in prd[g_] and f"{i_}_not" not in tp]
-            if others:
+        gts = [n for n, t, _ in cd["nodes"] if t in G.ALL_GATES]
+        rng.shuffle(gts)
+        only_not = rng.random() < 0.4
+        for i_ in ins_:
+            if f"{i_}_not" in tp or rng.random() < 0.25:
+                continue
+            if only_not:
+                pool = [g_ for g_ in gts if tp[g_] == "not" and i_ not in prd[g_]]
+            else:
+                pool = [g_ for g_ in gts if not (tp[g_] == "not" and prd[g_] == [i_])]
+                pref = [g_ for g_ in pool if i_ in prd[g_] and len(prd[g_]) >= 2]
+                pool = pref if pref and rng.random() < 0.7 else pool
+            if pool:
                 try:
-                    cd = G.cd_rename(cd, {g_: f"{rng.choice(others)}_not"})
+                    cd = G.cd_rename(cd, {pool[0]: f"{i_}_not"})
+                    gts.remove(pool[0])
+                    tp = G.cd_types(cd)
+                    prd = G.cd_preds(cd)
                 except ValueError:
                     pass
-                break
     return {"op": "write", "c": cd}
 
 
